@@ -80,6 +80,15 @@ def ev_call(self, e, st):
             s = st.fork()
             yield s, self.alloc(s, "opaque")       # an empty fresh container whose content is not modelled
             return
+        if name == "set" and len(e.args) == 1 and not e.keywords:
+            # set(seq): a set value — a sequence of members in an arbitrary order, possibly with repetitions (membership semantics only)
+            for st1, v in self.ev(e.args[0], st):
+                if isinstance(v, Raise):
+                    yield st1, v
+                    continue
+                sq = self.seq_of(st1, v)
+                yield st1, Val(sq.t, ("setv", sq.ty[1]))
+            return
         if name == "dict" and len(e.args) == 1 and not e.keywords:
             # dict(d): a fresh dictionary with the same keys (same order) and entries
             for st1, v in self.ev(e.args[0], st):
@@ -489,6 +498,10 @@ def builtin_call(self, name, e, st):
             elif v.ty == "sexp":
                 slen = self.fn("slen")
                 yield st1, Val(z3.If(SExp.is_Lst(v.t), slen(SExp.items(v.t)), z3.Length(SExp.s(v.t))), "int")
+            elif isinstance(v.ty, tuple) and v.ty[0] == "setv":
+                # cardinality of a set value: only "is it empty" is modelled (card > 0 <=> some member)
+                card = fresh_const("card", I)
+                yield st1.assume(z3.And(card >= 0, (card > 0) == (z3.Length(v.t) > 0))), Val(card, "int")
             elif is_ref(v.ty) and v.ty[1].startswith("dict_"):
                 yield st1, Val(z3.Length(self.read_field(st1, v, v.ty[1], "keys").t), "int")
             else:
@@ -732,6 +745,19 @@ def method_call(self, st, base, attr, args, node):
         if cls == "deque" or cls.startswith("list_"):
             items = self.read_field(st, base, cls, "items")
             n = z3.Length(items.t)
+            if attr == "index" and len(args) == 1:
+                # first position holding the value; ValueError when absent
+                x = self.coerce(args[0], items.ty[1]).t
+                s_no = st.assume(z3.Not(z3.Contains(items.t, z3.Unit(x))))
+                if self.feasible(s_no):
+                    yield s_no, Raise("ValueError", line)
+                r = z3.IndexOf(items.t, z3.Unit(x), z3.IntVal(0))
+                j = bound_var("ij", I)
+                s_ok = st.assume(z3.And(z3.Contains(items.t, z3.Unit(x)), r >= 0, r < n, items.t[r] == x,
+                                        z3.ForAll([j], z3.Implies(z3.And(j >= 0, j < r), items.t[j] != x))))
+                if self.feasible(s_ok):
+                    yield s_ok, Val(r, "int")
+                return
             if attr == "popleft" or (attr == "pop" and args and isinstance(node.args[0], ast.Constant) and node.args[0].value == 0):
                 s_bad = st.assume(n == 0)
                 if self.feasible(s_bad):
@@ -853,6 +879,13 @@ def method_call(self, st, base, attr, args, node):
         s.conds.append(z3.ForAll([k], z3.Implies(z3.And(k >= 0, k < n0), new[k] == base.t[k]), patterns=[new[k]]))
         s.env[tgt.id] = Val(new, base.ty)
         yield s, Val(z3.IntVal(0), "none")
+        return
+    if isinstance(base.ty, tuple) and base.ty[0] == "setv" and attr == "intersection" and len(args) == 1 \
+            and isinstance(args[0].ty, tuple) and args[0].ty[0] == "setv":
+        r = fresh_const("isect", base.t.sort())
+        x = bound_var("sx", sort_of(base.ty[1]))
+        s = st.assume(z3.ForAll([x], z3.Contains(r, z3.Unit(x)) == z3.And(z3.Contains(base.t, z3.Unit(x)), z3.Contains(args[0].t, z3.Unit(x)))))
+        yield s, Val(r, base.ty)
         return
     if isinstance(base.ty, tuple) and base.ty[0] == "seq" and attr == "extend":
         tgt = node.func.value
